@@ -167,16 +167,21 @@ def _categorical_target(ck: Check, repo: Repo) -> None:
     sub = Check("C18", ck.tier, ck.repo_root)
     sub.known = []
     _ACTIVE = True
+    err = None
     try:
         c18.run(sub, repo)
+    except AnalysisError as e:
+        err = e  # what was established before the nested analysis got stuck still counts
     finally:
         _ACTIVE = False
     ck.rule("C08.11", "the distributional learner's target is the exact categorical projection of reward + gamma^n * support under the shared network's next-state "
                       "distribution (obligations of C18.1 - C18.6 on RainbowDQN._dqn_loss, shared with the C18 check)")
     taken = [replace(o, rule="C08.11") for o in sub.obs if o.rule in ("C18.1", "C18.2", "C18.3", "C18.4", "C18.5", "C18.6")]
+    ck.obs.extend(taken)
+    if err is not None:
+        raise err
     if len(taken) < 20:
         raise AnalysisError(f"C08.11: only {len(taken)} obligations taken over from C18.1-6")
-    ck.obs.extend(taken)
 
 
 def run_r3_first(ck: Check, repo: Repo) -> None:
